@@ -2,7 +2,7 @@
 // usage: vc09 sig      one definition per stdin line, prints the 64-bit signature (16 hex digits)
 //
 // line:  <tool> <name> <inputs> <outputs> <ami> <amo> <aood> <args> <envkeys> <envvals> <deps> <style> <inh> <csi> <sig>
-//   tool      shell | phony
+//   tool      shell | phony        (the other tools and node rules: see renderOther below)
 //   name,sig  hex string ("-" = empty);   inputs/outputs/args/envkeys/envvals/deps: "," separated hex lists ("." = empty)
 //   ami/amo/aood/inh/csi: 0|1 (the attribute is written only when it differs from the loader default)
 //   style     0 (attribute absent) | 1 makefile | 2 dependency-info | 3 makefile-ignoring-subsequent-outputs
@@ -49,6 +49,8 @@ public:
   std::mutex mu;
   QDelegate qd;
   std::string wanted;          // command name to observe
+  std::string wantedNode;      // node tool: the output node of that command whose getSignature() is observed
+  bool observeNode = false;
   bool seen = false;
   uint64_t first = 0, second = 0;
   std::string errors;
@@ -69,6 +71,17 @@ public:
   void commandPreparing(Command* c) override {
     std::unique_lock<std::mutex> l(mu);
     if (c->getName() == wanted && !seen) {
+      if (observeNode) {
+        for (auto* n : c->getOutputs()) {
+          if (n->getName() == wantedNode) {
+            seen = true;
+            first = n->getSignature().value;
+            second = n->getSignature().value;
+            break;
+          }
+        }
+        return;
+      }
       seen = true;
       first = c->getSignature().value;    // computed
       second = c->getSignature().value;   // ShellCommand: served from its cache
@@ -142,8 +155,78 @@ std::string hex64(uint64_t v) {
   return buf;
 }
 
+// ---- the other tools -------------------------------------------------------------------------------------
+// line:  <tool> <name> <inputs> <outputs> <ami> <amo> <aood> <key>=<value> ...
+//   tool   clang | mkdir | archive | shared-library | swift-compiler | symlink | stale-file-removal | node
+//   value  hex string, "," separated hex list ("." = empty) or 0|1, depending on the key (attribute name)
+//   node:  <name> is the NODE name; keys: type=<final NodeType ordinal, for the model> typeattr=<0 absent | 1 plain |
+//          2 directory | 3 directory-structure | 4 virtual> producers=<command names> and the unhashed node
+//          attributes is-mutated=0|1 is-command-timestamp=0|1; each producer is a phony command with the node as output
+struct KV { std::string k, v; };
+
+const char* kScalarKeys[] = {"deps", "executable", "compiler-style", "module-name", "module-output-path", "temps-path",
+                             "num-threads", "contents", "link-output-path", "working-directory"};
+const char* kListKeys[] = {"args", "other-args", "module-aliases", "sources", "objects", "import-paths",
+                           "expectedOutputs", "roots"};
+const char* kBoolKeys[] = {"is-library", "enable-whole-module-optimization", "repair-via-ownership-analysis", "control-enabled"};
+
+template <size_t N> bool among(const char* (&a)[N], const std::string& k) {
+  for (auto x : a) if (k == x) return true;
+  return false;
+}
+
+std::string renderOther(const std::vector<std::string>& f, std::string& name, std::string& observe, std::string& err) {
+  if (f.size() < 7) { err = "bad-op"; return ""; }
+  const std::string& tool = f[0];
+  name = vh::hexDecode(f[1]);
+  auto inputs = vh::hexList(f[2]), outputs = vh::hexList(f[3]);
+  std::vector<KV> kvs;
+  for (size_t i = 7; i < f.size(); i++) {
+    auto p = f[i].find('=');
+    if (p == std::string::npos) { err = "bad-op"; return ""; }
+    kvs.push_back({f[i].substr(0, p), f[i].substr(p + 1)});
+  }
+  std::string y = "client:\n  name: mock\n\n";
+  if (tool == "node") {
+    std::vector<std::string> producers;
+    std::string attrs;
+    for (auto& kv : kvs) {
+      if (kv.k == "type") continue;                       // for the model only
+      else if (kv.k == "typeattr") {
+        static const char* names[] = {"", "plain", "directory", "directory-structure", "virtual"};
+        int t = atoi(kv.v.c_str());
+        if (t < 0 || t > 4) { err = "bad-op"; return ""; }
+        if (t) attrs += std::string("    type: ") + names[t] + "\n";
+      } else if (kv.k == "producers") producers = vh::hexList(kv.v);
+      else if (kv.k == "is-mutated" || kv.k == "is-command-timestamp") { if (kv.v == "1") attrs += "    " + kv.k + ": true\n"; }
+      else { err = "bad-op"; return ""; }
+    }
+    if (producers.empty()) { err = "bad-op"; return ""; }   // a node is observed through a producing command
+    if (!attrs.empty()) y += "nodes:\n  " + yq(name) + ":\n" + attrs + "\n";
+    y += "commands:\n";
+    for (auto& p : producers)
+      y += "  " + yq(p) + ":\n    tool: phony\n    outputs: [" + yq(name) + "]\n";
+    observe = producers[0];
+    return y;
+  }
+  observe = name;
+  y += "commands:\n  " + yq(name) + ":\n    tool: " + tool + "\n";
+  if (!inputs.empty()) y += "    inputs: " + ylist(inputs) + "\n";
+  if (!outputs.empty()) y += "    outputs: " + ylist(outputs) + "\n";
+  if (f[4] == "1") y += "    allow-missing-inputs: true\n";
+  if (f[5] == "1") y += "    allow-modified-outputs: true\n";
+  if (f[6] == "1") y += "    always-out-of-date: true\n";
+  for (auto& kv : kvs) {
+    if (among(kScalarKeys, kv.k)) y += "    " + kv.k + ": " + yq(vh::hexDecode(kv.v)) + "\n";     // also when empty
+    else if (among(kListKeys, kv.k)) { auto l = vh::hexList(kv.v); if (!l.empty()) y += "    " + kv.k + ": " + ylist(l) + "\n"; }
+    else if (among(kBoolKeys, kv.k)) y += "    " + kv.k + ": " + (kv.v == "1" ? "true" : "false") + "\n";
+    else { err = "bad-op"; return ""; }
+  }
+  return y;
+}
+
 std::string render(const std::vector<std::string>& f, std::string& name, std::string& err) {
-  if (f.size() != 15) { err = "bad-op"; return ""; }
+  if (f.size() < 15) { err = "bad-op"; return ""; }
   const std::string& tool = f[0];
   name = vh::hexDecode(f[1]);
   auto inputs = vh::hexList(f[2]), outputs = vh::hexList(f[3]);
@@ -171,6 +254,16 @@ std::string render(const std::vector<std::string>& f, std::string& name, std::st
     std::string sig = vh::hexDecode(f[14]);
     if (!sig.empty()) y += "    signature: " + yq(sig) + "\n";
   }
+  // optional tail: attributes that are NOT hashed (working-directory=<hex> control-enabled=0|1 repair-via-ownership-analysis=0|1)
+  for (size_t i = 15; i < f.size(); i++) {
+    auto p = f[i].find('=');
+    if (p == std::string::npos) { err = "bad-op"; return ""; }
+    std::string k = f[i].substr(0, p), v = f[i].substr(p + 1);
+    if (k == "working-directory" && tool == "shell") y += "    working-directory: " + yq(vh::hexDecode(v)) + "\n";
+    else if ((k == "control-enabled" && tool == "shell") || k == "repair-via-ownership-analysis")
+      y += "    " + k + ": " + (v == "1" ? "true" : "false") + "\n";
+    else { err = "bad-op"; return ""; }
+  }
   return y;
 }
 
@@ -178,8 +271,14 @@ void mode_sig(bool showYaml) {
   std::string line;
   while (std::getline(std::cin, line)) {
     auto f = vh::split(line);
-    std::string name, err;
-    std::string yaml = render(f, name, err);
+    std::string name, err, observe, nodeName;
+    std::string yaml;
+    bool legacy = !f.empty() && (f[0] == "shell" || f[0] == "phony");
+    if (legacy) { yaml = render(f, name, err); observe = name; }
+    else {
+      yaml = renderOther(f, name, observe, err);
+      if (!f.empty() && f[0] == "node") nodeName = name;
+    }
     if (!err.empty()) { std::cout << err << "\n"; continue; }
     if (showYaml) { std::cout << yaml << "---\n"; continue; }
     OneFileFS fs;
@@ -188,11 +287,13 @@ void mode_sig(bool showYaml) {
     std::string out;
     {
       SigDelegate d;
-      d.wanted = name;
+      d.wanted = observe;
+      d.wantedNode = nodeName;
+      d.observeNode = !f.empty() && f[0] == "node";
       BuildSystem system(d, std::unique_ptr<FileSystem>(new RefFS(fs)));
       if (!system.loadDescription(fs.path)) out = "load-failed:" + vh::hexEncode(d.errors);
       else {
-        system.build(BuildKey::makeCommand(name));
+        system.build(BuildKey::makeCommand(observe));
         if (!d.seen) out = "not-prepared:" + vh::hexEncode(d.errors);
         else if (d.first != d.second) out = "unstable:" + hex64(d.first) + "/" + hex64(d.second);
         else out = hex64(d.first);
